@@ -170,13 +170,18 @@ fn main() {
         }
       };
       // true match count for the `<=` judgement under pruned execution
+      // Reference for the `<=` judgement under pruned execution: the total of the SAME request (same
+      // cursor, rescore, collapse ...) without flags under exhaustive execution. explain legitimately
+      // switches pruning off, so its total may rise up to that value. (The number of matches of the bare
+      // query is not the right reference: with a cursor the total is "matches after the cursor + hits
+      // returned so far", and a rescore that reorders the previous page makes that sum overshoot by itself,
+      // with or without flags - observed at thorough seed 1, case 45781; outside C20.)
+      let _ = (&q, &filter, big);
       let truth: Option<u64> = if exec.0 != "bm25" {
-        let mut t = json!({"query": q.to_json(), "limit": big, "return_stored": false, "execution": "bm25"});
-        if let Some(f) = filter.as_ref() {
-          t["filter"] = f.to_json();
-        }
+        let mut t = base.clone();
+        paging::apply_exec(&mut t, &("bm25".to_string(), None));
         match paging::call(&reader, &t) {
-          Call::Ok(r) if r.next_cursor.is_none() => Some(r.hits.len() as u64),
+          Call::Ok(r) => Some(r.total_hits_estimate),
           _ => None,
         }
       } else {
@@ -290,7 +295,7 @@ fn main() {
           if r.total_hits_estimate > t && r0.total_hits_estimate <= t {
             l.fail(
               format!("total-exceeds-true-count-only-with-{}:{ctxs}", flag),
-              format!("total_hits_estimate {} > true match count {t} (unflagged: {})", r.total_hits_estimate, r0.total_hits_estimate),
+              format!("total_hits_estimate {} > total of the same unflagged request under exhaustive execution {t} (unflagged, pruned: {})", r.total_hits_estimate, r0.total_hits_estimate),
               case(json!(null)),
             );
           }
